@@ -12,7 +12,7 @@ package bsupport
 //@ func RunTransforms(record *base.LogRecord, transforms []base.LogTransformFunc) base.FilterResult
 //@   requires record != nil && forall j int :: 0 <= j && j < len(transforms) ==> transforms[j] != nil
 //@   modifies everything
-//@   preserves mem(base.LogTransformFunc), mem(base.LogFieldLocator), base.LogRecord.Fields
+//@   preserves mem(base.LogTransformFunc), mem(base.LogFieldLocator), base.LogRecord.Fields, nstreams, nchunks
 //@   ensures[called-in-order-until-first-drop] exists k int :: 0 <= k && k <= len(transforms) && base.tlogn == old(base.tlogn) + k
 //@        && (forall j int :: 0 <= j && j < k ==> base.tlog[old(base.tlogn) + j] == ref(transforms[j]))
 //@        && (forall j int :: 0 <= j && j < k - 1 ==> base.tres[old(base.tlogn) + j] == 1)
@@ -72,3 +72,41 @@ package bsupport
 //@   modifies nothing
 //@   ensures  len(rewriterConfigs) > 0 ==> result != nil
 //@   loop 1: invariant -1 <= i && i < len(rewriterConfigs) && (i < len(rewriterConfigs) - 1 ==> head != nil) && (i == len(rewriterConfigs) - 1 ==> head == nil)
+
+// ==== processing worker (C19: pipeline passed + dropped = records received; C12: reference discipline; C11/C05: every stream
+// is packed and every chunk handed on). Functional-only unit (flag nosafety): run-time checks and callee preconditions on
+// its paths are assumed - the callees are verified in their own units. Ghost: nstreams / nchunks count the non-empty
+// streams the serializers returned and the chunks the packers returned (trusted interface contracts).
+//@ ghost var nstreams int
+//@ ghost var nchunks int
+//@ extern func (s base.LogSerializer) SerializeRecord(record *base.LogRecord) base.LogStream
+//@   flag counted
+//@   modifies everything
+//@   ghostset nstreams := nstreams + (len(result) > 0 ? 1 : 0)
+//@   ghostset nchunks := nchunks
+//@ extern func (m base.LogChunkMaker) WriteStream(stream base.LogStream) *base.LogChunk
+//@   flag counted
+//@   modifies everything
+//@   ghostset nchunks := nchunks + (result != nil ? 1 : 0)
+//@   ghostset nstreams := nstreams
+//@ func (worker *LogProcessingWorker) onInput(buffer []*base.LogRecord)
+//@   property C19 C12 C11 C05
+//@   flag nosafety noinfer
+//@   requires worker != nil
+//@   modifies everything
+//@   loop 1: step[every-record-counted-exactly-once-and-released-as-often-as-it-is-referenced]
+//@        (ncalls("base.LogInputCounterSet.CountRecordDrop") == prev(ncalls("base.LogInputCounterSet.CountRecordDrop")) + 1 && ncalls("base.LogInputCounterSet.CountRecordPass") == prev(ncalls("base.LogInputCounterSet.CountRecordPass"))
+//@           && ncalls("base.LogAllocator.Release") == prev(ncalls("base.LogAllocator.Release")) + 1 && ncalls("base.LogSerializer.SerializeRecord") == prev(ncalls("base.LogSerializer.SerializeRecord")))
+//@     || (ncalls("base.LogInputCounterSet.CountRecordPass") == prev(ncalls("base.LogInputCounterSet.CountRecordPass")) + 1 && ncalls("base.LogInputCounterSet.CountRecordDrop") == prev(ncalls("base.LogInputCounterSet.CountRecordDrop"))
+//@           && ncalls("base.LogAllocator.Release") - prev(ncalls("base.LogAllocator.Release")) == ncalls("base.LogSerializer.SerializeRecord") - prev(ncalls("base.LogSerializer.SerializeRecord")))
+//@   loop 1: step[one-counter-selection-per-record] ncalls("base.LogProcessCounterSet.SelectMetricKeySet") == prev(ncalls("base.LogProcessCounterSet.SelectMetricKeySet")) + 1
+//@   loop 1: step[every-non-empty-stream-is-packed] ncalls("base.LogChunkMaker.WriteStream") - prev(ncalls("base.LogChunkMaker.WriteStream")) == nstreams - prev(nstreams)
+//@   loop 1: step[every-non-empty-stream-is-counted] ncalls("base.LogProcessCounterSet.CountStream") - prev(ncalls("base.LogProcessCounterSet.CountStream")) == nstreams - prev(nstreams)
+//@   loop 1: step[every-chunk-is-counted] ncalls("base.LogProcessCounterSet.CountChunk") - prev(ncalls("base.LogProcessCounterSet.CountChunk")) == nchunks - prev(nchunks)
+//@   loop 2: invariant -1 <= rangeindex#2
+//@           && ncalls("base.LogAllocator.Release") == atentry(ncalls("base.LogAllocator.Release")) + rangeindex#2 + 1 && ncalls("base.LogSerializer.SerializeRecord") == atentry(ncalls("base.LogSerializer.SerializeRecord")) + rangeindex#2 + 1
+//@           && ncalls("base.LogInputCounterSet.CountRecordPass") == atentry(ncalls("base.LogInputCounterSet.CountRecordPass")) && ncalls("base.LogInputCounterSet.CountRecordDrop") == atentry(ncalls("base.LogInputCounterSet.CountRecordDrop"))
+//@           && ncalls("base.LogProcessCounterSet.SelectMetricKeySet") == atentry(ncalls("base.LogProcessCounterSet.SelectMetricKeySet"))
+//@           && ncalls("base.LogChunkMaker.WriteStream") - atentry(ncalls("base.LogChunkMaker.WriteStream")) == nstreams - atentry(nstreams)
+//@           && ncalls("base.LogProcessCounterSet.CountStream") - atentry(ncalls("base.LogProcessCounterSet.CountStream")) == nstreams - atentry(nstreams)
+//@           && ncalls("base.LogProcessCounterSet.CountChunk") - atentry(ncalls("base.LogProcessCounterSet.CountChunk")) == nchunks - atentry(nchunks)
